@@ -228,7 +228,7 @@ def run(ctx):
         if rc != 0:
             corr_broken.append("hostile harness exit %s" % rc)
         # (c) known / fixed findings are replayed, not remembered (the F3 replay runs as a subprocess above too)
-        scripts = sorted(glob.glob(os.path.join(ROOT, "corpus", "C16", "known", "*.ops")) +
+        scripts = sorted(glob.glob(os.path.join(ROOT, "corpus", "C16", "*.ops")) + glob.glob(os.path.join(ROOT, "corpus", "C16", "known", "*.ops")) +
                          glob.glob(os.path.join(ROOT, "corpus", "C16", "fixed", "*.ops")))
         if scripts:
             rc, out, od = run_stream(ctx, binp, "TestVerifE6Sync", "known", {"VERIF_SCRIPT": ",".join(scripts)}, 300)
